@@ -1,20 +1,54 @@
 """Which properties are claimed, at which level (source of MANIFEST.json via gen_manifest.py)."""
 ALL = ["C%02d" % i for i in range(1, 21)]
+TECH = "contract-based deductive verification (pyvc: ast->VC symbolic execution of the real source, z3/cvc5) + bounded runtime contract checking"
+HYBRID = ("The anchored mechanisms are under sidecar contracts whose obligations are generated from /repo's current source and discharged for all "
+          "inputs (evidence: obligations / discharged); the whole-conversion postcondition goes through ast.parse/unparse, textwrap, black and the "
+          "file system, which the verifier cannot reach, so it is decided by the BOUNDED stand-in (the same kind of contract evaluated on the real "
+          "functions over an enumerated domain), labelled bounded and never counted as proved. ")
+
+
+def _c(level, text, ref, note):
+    return {"level": level, "text": text, "design_ref": ref, "note": note, "technique": TECH}
+
 
 CHECKS = {
-    "C17": {
-        "level": "proof",
-        "text": "Every function the default<->prose codec consists of (unquote, quote, code_quoted, location_within, extract_default, "
-                "needs_quoting's scalar branches, set_default_doc, and the quote/unquote/set_default_doc laws) is under a sidecar contract "
-                "whose obligations are generated from /repo's current source and discharged for all inputs by the SMT portfolio "
-                "(obligations == discharged is required for the proof label; otherwise the run reports level 'other'). The property-level "
-                "round trip (render, read back, remove) and the same contracts on an enumerated corpus are a bounded companion.",
-        "design_ref": "DESIGN.md section 8 (C17), Appendix C",
-        "note": "Trusted: the VC generator and string models (cross-checked against CPython every run), z3/cvc5, ASCII reading of "
-                "isdecimal/isdigit/casefold, floats abstract, location_within's outer loop unrolled for 1..4 tokens (all call sites). "
-                "The round-trip lemma C17-L is bounded (5 prose x 19 values x 8 types), not proved. Known finding F10 (dotted value texts).",
-        "technique": "contract-based deductive verification: ast->VC symbolic execution of the real source + z3/cvc5; bounded runtime contract checking as companion",
-    },
+    "C01": _c("other", HYBRID + "Deductive: style decision of parse_docstring (cut point), token hygiene of the three styles (evaluation over the real constants), "
+              "set_default_doc and extract_default contracts. Bounded: rt_docstring over D_IR x 3 styles x wrap / default-text options.",
+              "DESIGN.md 8 C01", "Bounded: D_IR (476 IRs quick). Known findings D-infer, F11, D-vanish, D-nonliteral, D-carry, N-untyped, G-untyped, D-emptystr."),
+    "C02": _c("other", HYBRID + "Deductive: set_value, needs_quoting, set_default_doc, quote/unquote. Bounded: rt_class over D_IR x options with the N_class normalisation.",
+              "DESIGN.md 8 C02", "Bounded: D_IR. Known findings D-infer, C-object, C-order, C-typdrop."),
+    "C03": _c("other", HYBRID + "Deductive: get_function_type, set_value, get_internal_body, style decision, set_default_doc. Bounded: rt_function / rt_method over D_IR x "
+              "{kind, inline types, keyword-only, indent, default text}.", "DESIGN.md 8 C03",
+              "Bounded: D_IR. Known findings Fn-nodefault, Fn-typinfer, Fn-typnoprose, D-infer, C-order, C-typdrop, D-nonliteral."),
+    "C04": _c("other", HYBRID + "Deductive: set_value, get_internal_body, set_default_doc, code_quoted. Bounded: rt_argparse over D_IR x options with the N_argparse normalisation.",
+              "DESIGN.md 8 C04", "Bounded: D_IR. Known findings A-optwrap, A-none, A-tuple, A-retquote, A-bool, A-tupledict, D-infer."),
+    "C05": _c("other", "Lemma C05-L over the per-kind round-trip contracts: each hop of a chain is judged by its kind's contract on the actual intermediate description, "
+              "and swapped / invented parameters are never explained. Premises are C01-C04's (bounded); leaf obligations deductive.",
+              "DESIGN.md 8 C05", "Bounded: reduced D_IR, all 42 ordered pairs (length-3 chains in the thorough tier). Known finding A-retint."),
+    "C06": _c("other", HYBRID + "Bounded: every emitted class / function / argparse function over D_IR is compiled, re-parsed, written with and without black, executed and "
+              "read back with inspect / a real ArgumentParser.", "DESIGN.md 8 C06", "Bounded: D_IR; np / tf / foo are stubs when executing. Known findings X-black, C-nonetype."),
+    "C07": _c("other", HYBRID + "Deductive: the padding fragment of parse.function (extracted mechanically, all shapes up to 4 positional / 2 keyword-only arguments), "
+              "unordered-iteration audit of parser_utils, get_function_type. Bounded: 1 700 generated definitions judged against inspect.signature; hash seeds.",
+              "DESIGN.md 8 C07", "Bounded: <= 4 parameters, ReST docs. Known findings S-docorder, S-kwargs."),
+    "C08": _c("other", HYBRID + "Deductive: idempotence / inverse laws (set_default_doc twice == once, quote twice, unquote o quote, set_value). Bounded: t2 == t3 for 7 kinds x options over D_IR.",
+              "DESIGN.md 8 C08", "Bounded: D_IR. Known findings X8-*."),
+    "C12": _c("other", "Decided statically: every syntactic source of nondeterminism in the non-test modules is an obligation decided by rule on the AST (for all inputs, by "
+              "over-approximation), plus location_within's contract; reported as proof only when obligations == discharged (the gen() module-state write is an open finding). "
+              "A hash-seed / call-order sweep guards the audit's completeness (bounded).", "DESIGN.md 8 C12",
+              "Trusted: the audit's list of nondeterminism source kinds; CPython dict order. Known finding G-globals."),
+    "C13": _c("other", HYBRID + "Deductive: copy-before-mutate dominance in parse.function and in all four emitters (syntactic frame obligations), get_internal_body frame, "
+              "set_default_doc idempotent mutation. Bounded (relational contract): call sequences up to length 3 (4 thorough) on a shared IR vs fresh copies.",
+              "DESIGN.md 8 C13", "Bounded: sequence length, 13 IRs."),
+    "C16": _c("other", HYBRID + "Deductive: get_internal_body, RewriteName.visit_Name, get_function_type. Bounded: generated bodies re-emitted as function and as __call__, compared by ast.dump.",
+              "DESIGN.md 8 C16", "Bounded: 9 body shapes x 4 return shapes. Known finding B-strayfirst."),
+    "C17": _c("proof", "Every function the default<->prose codec consists of (unquote, quote, code_quoted, location_within, extract_default, needs_quoting's scalar branches, "
+              "set_default_doc, and the quote / unquote / set_default_doc laws) is under a sidecar contract whose obligations are generated from /repo's current source and "
+              "discharged for all inputs by the SMT portfolio (obligations == discharged is required for the proof label; otherwise the run reports level 'other'). The "
+              "property-level round trip and the same contracts on an enumerated corpus are a bounded companion.", "DESIGN.md 8 C17, Appendix C",
+              "Trusted: the VC generator and string models (cross-checked against CPython every run), z3 / cvc5, ASCII reading of isdecimal / isdigit / casefold, floats abstract, "
+              "location_within's outer loop unrolled for 1..4 tokens. The round-trip lemma C17-L is bounded. Known findings F10, F-emptystr."),
+    "C18": _c("other", HYBRID + "Deductive: type obligations on pure_utils.line_length / fill. Bounded (relational): parse(emit(wrap)) == parse(emit(no wrap)) modulo whitespace for a "
+              "sweep of widths, one subprocess each.", "DESIGN.md 8 C18", "Bounded: 8 widths (15 thorough) x 50 IRs x 7 kinds. Known finding W-numpydoc."),
 }
 
 NOT_APPLICABLE = {}
